@@ -100,7 +100,36 @@ def startBwd (s : WS) (pos : Nat) (big : Bool) : Nat :=
         (if onB then pos - 1 else pos) (if onB then pos - 1 else pos))
       (pos > 0 && !s.ws pos && s.otherOrWs (pos - 1) (s.c pos))
 
-inductive WKind where | startFwd | endFwd | startBwd
+/-- `end_of_word_backward(pos, word, false)` (ge / gE). Its "not found" value is the text length. -/
+def endBwd (s : WS) (pos : Nat) (big : Bool) : Nat :=
+  if big then
+    if pos = 0 then s.len
+    else
+      (fun (onB : Bool) =>
+        (fun (p1 k1 : Nat) =>
+          if p1 ≥ s.len then s.len
+          else if s.ws p1 then (findDown (fun i => !s.ws i) k1).getD s.len
+          else match findDown (fun i => s.ws i) k1 with
+            | none => s.len
+            | some w => (findDown (fun i => !s.ws i) w).getD s.len)
+        (if onB then pos - 1 else pos) (if onB then pos - 1 else pos))
+      (s.ws (pos - 1))
+  else
+    if pos ≥ s.len then s.len
+    else if pos = 0 then s.len
+    else
+      (fun (onB : Bool) =>
+        (fun (p1 : Nat) =>
+          if !(s.ws pos) && !(s.ws p1) && s.c pos != s.c p1 then p1
+          else if !s.ws pos then
+            match findDown (fun i => s.otherOrWs i (s.c p1)) pos with
+            | none => s.len
+            | some o => if !s.ws o then o else (findDown (fun i => !s.ws i) o).getD s.len
+          else (findDown (fun i => !s.ws i) pos).getD s.len)
+        (if onB then pos - 1 else pos))
+      (!s.ws pos && s.otherOrWs (pos - 1) (s.c pos))
+
+inductive WKind where | startFwd | endFwd | startBwd | endBwd
   deriving Repr, BEq, DecidableEq
 
 /-- `dispatch_word_motion` (normal mode: no insert-mode start position): the scan repeated `count` times,
@@ -111,13 +140,37 @@ def dispatchWord (s : WS) (k : WKind) (big incl : Bool) : Nat → Nat → Nat
     dispatchWord s k big incl n (min (match k with
       | .startFwd => startFwd s pos big (incl && n == 0)
       | .endFwd => endFwd s pos big
-      | .startBwd => startBwd s pos big) s.len)
+      | .startBwd => startBwd s pos big
+      | .endBwd => endBwd s pos big) s.len)
 
-/-- The `WordMotion` arm of `eval_motion`: `change` = the verb is `c` (`cw` keeps the trailing blank). -/
-def evalWord (s : WS) (cur : Nat) (k : WKind) (big : Bool) (count : Nat) (change : Bool) : MK :=
+/-- The `WordMotion` arm of `eval_motion`: `change` = the verb is `c` (`cw` keeps the trailing blank);
+`selecting` matters for `ge` only (fix 2e48913). -/
+def evalWord (s : WS) (cur : Nat) (k : WKind) (big : Bool) (count : Nat) (change : Bool) (selecting : Bool := false) : MK :=
   (fun pos => match k with
     | .endFwd => MK.onto pos
+    | .endBwd => if selecting then MK.on pos else MK.inclusive (ordered cur pos).1 (ordered cur pos).2
     | _ => MK.on pos)
   (min (dispatchWord s k big (change && k == .startFwd) count cur) s.len)
+
+/-- `is_word_bound(pos, word, dir)` -/
+def isWordBound (s : WS) (pos : Nat) (big fwd : Bool) : Bool :=
+  if s.len = 0 then false
+  else
+    (fun cp =>
+      (fun other =>
+        if other = cp then true
+        else if big then s.ws other else s.otherOrWs other (s.c cp))
+      (if fwd then min (cp + 1) (s.len - 1) else cp - 1))
+    (min pos (s.len - 1))
+
+/-- `text_obj_word` (iw / aw / iW / aW — inside and around are the same code): the raw (start, end). -/
+def textObjWord (s : WS) (cur : Nat) (big : Bool) : Nat × Nat :=
+  (if isWordBound s cur big false then cur else startBwd s cur big,
+   if isWordBound s cur big true then cur else endFwd s cur big)
+
+/-- The `TextObj::Word` arm of `eval_motion`. -/
+def evalTextObjWord (s : WS) (cur : Nat) (big around : Bool) : MK :=
+  if around then .exclusive (textObjWord s cur big).1 (textObjWord s cur big).2
+  else .inclusive (textObjWord s cur big).1 (textObjWord s cur big).2
 
 end Vicut
